@@ -171,6 +171,141 @@ func c14GenPath(r *simrt.Rand, nonce string) string {
 	}
 }
 
+// ---- a small independent path-set model for star-free masks ----
+//
+// A star-free path is "$" followed by segments .Name, [i,j,...], {"a","b",...} or {1,2,...}; a
+// group stands for one path per member.  A concrete path q is in a white-list mask built from the
+// set S of concrete paths iff some p in S is a prefix of q (a selected value covers everything
+// beneath it) or q is a prefix of some p (q leads to a selected value).  In a black-list mask q is
+// excluded iff some p in S is a prefix of q.
+
+func c14Expand(path string) ([][]string, bool) {
+	if !strings.HasPrefix(path, "$") || strings.Contains(path, "*") {
+		return nil, false
+	}
+	out := [][]string{{}}
+	rest := path[1:]
+	for len(rest) > 0 {
+		var members []string
+		switch rest[0] {
+		case '.':
+			j := 1
+			for j < len(rest) && rest[j] != '.' && rest[j] != '[' && rest[j] != '{' {
+				j++
+			}
+			if j == 1 {
+				return nil, false
+			}
+			members = []string{rest[:j]}
+			rest = rest[j:]
+		case '[', '{':
+			closer := byte(']')
+			if rest[0] == '{' {
+				closer = '}'
+			}
+			j := strings.IndexByte(rest, closer)
+			if j < 0 {
+				return nil, false
+			}
+			for _, m := range strings.Split(rest[1:j], ",") {
+				if m == "" || strings.ContainsAny(m, "[]{}") {
+					return nil, false
+				}
+				members = append(members, string(rest[0])+m+string(closer))
+			}
+			rest = rest[j+1:]
+		default:
+			return nil, false
+		}
+		var next [][]string
+		for _, pre := range out {
+			for _, m := range members {
+				next = append(next, append(append([]string{}, pre...), m))
+			}
+		}
+		out = next
+		if len(out) > 64 {
+			return nil, false
+		}
+	}
+	return out, true
+}
+
+func c14IsPrefix(a, b []string) bool {
+	if len(a) > len(b) {
+		return false
+	}
+	for i := range a {
+		if a[i] != b[i] {
+			return false
+		}
+	}
+	return true
+}
+
+// c14Probes: prefixes of the given paths, the paths themselves, one-step extensions and siblings.
+func c14Probes(set [][]string) [][]string {
+	seen := map[string]bool{}
+	var out [][]string
+	add := func(q []string) {
+		k := strings.Join(q, "")
+		if !seen[k] && len(out) < 200 {
+			seen[k] = true
+			out = append(out, append([]string{}, q...))
+		}
+	}
+	for _, p := range set {
+		// walk the schema along p
+		n := c14Root
+		for i := 0; i <= len(p); i++ {
+			add(p[:i])
+			// siblings / extensions at this position
+			switch n.kind {
+			case "struct":
+				for _, f := range n.fields {
+					add(append(append([]string{}, p[:i]...), "."+f.name))
+				}
+			case "list":
+				for _, k := range []string{"[0]", "[1]", "[2]", "[3]", "[4]", "[5]", "[9]"} {
+					add(append(append([]string{}, p[:i]...), k))
+				}
+			case "strmap":
+				for _, k := range []string{"{\"a\"}", "{\"b\"}", "{\"k\"}", "{\"zz\"}"} {
+					add(append(append([]string{}, p[:i]...), k))
+				}
+			case "intmap":
+				for _, k := range []string{"{0}", "{1}", "{2}", "{7}", "{8}", "{9}"} {
+					add(append(append([]string{}, p[:i]...), k))
+				}
+			}
+			if i == len(p) {
+				break
+			}
+			// descend
+			seg := p[i]
+			switch {
+			case n.kind == "struct" && strings.HasPrefix(seg, "."):
+				var nx *c14Node
+				for _, f := range n.fields {
+					if "."+f.name == seg {
+						nx = f.n
+					}
+				}
+				if nx == nil {
+					i = len(p)
+					continue
+				}
+				n = nx
+			case (n.kind == "list" && strings.HasPrefix(seg, "[")) || ((n.kind == "strmap" || n.kind == "intmap") && strings.HasPrefix(seg, "{")):
+				n = n.elem
+			default:
+				i = len(p)
+			}
+		}
+	}
+	return out
+}
+
 func (c14Driver) Gen(seed uint64, tier string) *simrt.Spec {
 	r := simrt.NewRand(seed)
 	sp := &simrt.Spec{Kind: "c14", Seed: seed, MapMode: []string{"random", "random", "reversed", "sorted"}[r.Intn(4)],
@@ -324,7 +459,7 @@ func (c14Driver) Run(spec *simrt.Spec, agg *Agg, keep bool) *Outcome {
 		}()
 		f()
 	}
-	nBuilt, nErr, nCorruptErr, nCorruptOK := 0, 0, 0, 0
+	nBuilt, nErr, nCorruptErr, nCorruptOK, nProbes := 0, 0, 0, 0, 0
 	res := w.Run(func() {
 		type ref struct {
 			fm   *fieldmask.FieldMask
@@ -362,6 +497,43 @@ func (c14Driver) Run(spec *simrt.Spec, agg *Agg, keep bool) *Outcome {
 					in := fm.PathInMask(desc, pth)
 					if !m.Black && !in {
 						fail("own-path-not-in-mask", "own-path-not-in-mask", "white-list mask built from %q does not contain its own path %q", m.Paths, pth)
+					}
+				}
+				// (vi) star-free masks: membership of probe paths against the independent path-set model
+				if !star {
+					var set [][]string
+					okAll := true
+					for _, pth := range m.Paths {
+						ex, ok := c14Expand(pth)
+						if !ok {
+							okAll = false
+							break
+						}
+						set = append(set, ex...)
+					}
+					if okAll {
+						for _, q := range c14Probes(set) {
+							qs := "$" + strings.Join(q, "")
+							covered, leads := false, false
+							for _, pp := range set {
+								if c14IsPrefix(pp, q) {
+									covered = true
+								}
+								if c14IsPrefix(q, pp) {
+									leads = true
+								}
+							}
+							got := fm.PathInMask(desc, qs)
+							want := covered || leads
+							if m.Black {
+								want = !covered
+							}
+							if got != want {
+								fail("path-membership", "path-membership", "mask (black=%v) built from %q: PathInMask(%q) = %v, the set of paths prescribes %v", m.Black, m.Paths, qs, got, want)
+								break
+							}
+							nProbes++
+						}
 					}
 				}
 				// (i) stable text: again on the same mask, and on a second mask from the same paths
@@ -567,8 +739,20 @@ func (c14Driver) Run(spec *simrt.Spec, agg *Agg, keep bool) *Outcome {
 				_ = c14Ans(fm)
 			})
 			guard("Unmarshal(damaged document "+clip(string(doc))+")", func() {
-				if fm, err := fieldmask.Unmarshal(append(doc, ' ')); err == nil {
-					_ = c14Ans(fm)
+				// through the cache, twice: the outcome is a function of the document, not of the history
+				d2 := append(append([]byte(nil), doc...), ' ')
+				fm1, err1 := fieldmask.Unmarshal(d2)
+				a1 := ""
+				if err1 == nil {
+					a1 = c14Ans(fm1)
+				}
+				fm2, err2 := fieldmask.Unmarshal(append([]byte(nil), d2...))
+				if (err1 == nil) != (err2 == nil) {
+					fail("cache-history", "cache-history:error-differs", "Unmarshal of the same damaged document answered %v the first time and %v the second time: %s", err1, err2, clip(string(d2)))
+				} else if err2 == nil {
+					if a2 := c14Ans(fm2); a2 != a1 {
+						fail("cache-history", "cache-history:mask-differs", "Unmarshal of the same document returned masks that answer differently: %s", firstDiff(a1, a2))
+					}
 				}
 			})
 		}
@@ -584,6 +768,7 @@ func (c14Driver) Run(spec *simrt.Spec, agg *Agg, keep bool) *Outcome {
 	}
 	o.Class, o.Sig, o.Msg = class, sig, msg
 	agg.Count("masks.built", nBuilt)
+	agg.Count("probe.path-membership-queries", nProbes)
 	agg.Count("masks.rejected-paths", nErr)
 	agg.Count("fault.corrupt.rejected", nCorruptErr)
 	agg.Count("fault.corrupt.accepted", nCorruptOK)
